@@ -173,7 +173,8 @@ def extract_default(
             )
             rest_offset += offset
 
-        fst = line[: _start_idx - 1]
+        # (nothing precedes a sentence which starts the line)
+        fst = line[: _start_idx - 1] if _start_idx > 0 else ""
         return fst + line[rest_offset:], default
 
 
